@@ -484,9 +484,11 @@ class FragmentMonitor(object):
             ctx.count("c04_skipped_enzyme")
             return
         s = str(rec.seq).upper()
-        if set(s) - set("ACGT"):
+        if set(s) - set("ACGTN"):
             ctx.count("c04_skipped_non_acgt")
             return
+        if "N" in s:
+            ctx.count("c04_records_with_unknown_bases")   # an unknown base never completes a recognition site (plain string search)
         N = len(s)
         geom = refmodel.geometry(enz)
         k = geom[2]
